@@ -798,6 +798,17 @@ Proof.
   destruct (try_get (spool s)) as [p' r]. simpl in Hx. subst r. simpl. unfold updw. rewrite Nat.eqb_refl. reflexivity.
 Qed.
 
+(** cancel_honoured: a parked caller of next() can always leave through its context (the step is enabled in every
+    state, touches nothing else), and a pool step never needs a waiter to move first. *)
+Theorem cancel_honoured : forall s w g,
+  swait s w = WHolding g ->
+  swait (step s (EWCancel w)) w = WGone /\ spool (step s (EWCancel w)) = spool s /\
+  forall w', w' <> w -> swait (step s (EWCancel w)) w' = swait s w'.
+Proof.
+  intros s w g H. unfold step, step_out. rewrite H. simpl. unfold updw. rewrite Nat.eqb_refl.
+  split; [reflexivity|]. split; [reflexivity|]. intros w' Hne. apply Nat.eqb_neq in Hne. rewrite Hne. reflexivity.
+Qed.
+
 (** ** non-vacuity: concrete reachable states meeting the hypotheses *)
 Definition ex_history : list ev :=
   [EAdd [1; 2; 3]; ETryGet; ECooldown 1; ERemove [1]; EAdd [1]; EAdvance 9; EExpire; ETryGet; ETryGet; ETryGet;
